@@ -4,7 +4,7 @@
 (* comments, positions and the letter case of mnemonics, size suffixes, index registers and hex    *)
 (* digits.  Records carry the characters of the base and of the variant (no include move).         *)
 EXTENDS ScannerData, TLC, Json, IOUtils, Naturals, Sequences, FiniteSets
-S == INSTANCE Scanner WITH TableMnemonics <- MnemonicSeqs, NakedMnemonics <- NakedSeqs, Keywords <- KeywordSeqs
+S == INSTANCE Scanner WITH TableMnemonics <- MnemonicSeqs, NakedMnemonics <- NakedSeqs, Keywords <- KeywordSeqs, SizeEatsNewline <- FALSE
 Trace == ndJsonDeserialize(IOEnv.TRACE_FILE)
 VARIABLE i
 Init == i = 0
